@@ -234,8 +234,7 @@ impl<C: Config> World<C> {
         let mut vs = Vec::new();
         for _ in 0..nvecs {
             let nv: V<C> = { let _t = TrackedScope::new(); AnyVec::new_in::<C::E>(C::mem_builder()) };
-            let b: Box<V<C>> = Box::new(nv);
-            vs.push(VSlot { ptr: Box::into_raw(b), h: None, kept: Vec::with_capacity(16), last_base: 0, probed: 0 });
+            vs.push(VSlot { ptr: vbox_new(nv), h: None, kept: Vec::with_capacity(16), last_base: 0, probed: 0 });
         }
         let mut w = World { vs, ext: Vec::with_capacity(64), notes: Vec::new() };
         for i in 0..w.vs.len() { w.vs[i].last_base = w.base(i); }
@@ -693,15 +692,44 @@ impl<C: Config> World<C> {
                     } else { for val in vals { self.ext.push(val); } }
                 }
             }
+            "place" => {
+                // the vector object itself placed at every admissible offset inside a page-aligned arena: the storage base
+                // must be aligned for the element type wherever the vector lives (also while it is empty)
+                // the k-th admissible position: offsets are multiples of the vector object's own alignment
+                let off = usz(a, "off") / 8 * std::mem::align_of::<V<C>>();
+                #[repr(align(4096))]
+                struct Arena([u8; 16384]);
+                let mut arena: Box<Arena> = { let _h = HarnessScope::new(); Box::new(Arena([0u8; 16384])) };
+                assert!(off + std::mem::size_of::<V<C>>() <= 16384, "driver: bad placement");
+                let p = unsafe { arena.0.as_mut_ptr().add(off) } as *mut V<C>;
+                unsafe {
+                    p.write(AnyVec::new_in::<C::E>(C::mem_builder()));
+                    let base = (*p).downcast_ref::<C::E>().expect("driver: type").as_ptr() as usize;
+                    let bytes = (*p).as_bytes().as_ptr() as usize;
+                    out.ret.push(((base % C::E::AL) as i64, (bytes % C::E::AL) as i64));
+                    std::ptr::drop_in_place(p);
+                }
+                let _h = HarnessScope::new();
+                drop(arena);
+            }
+            "push_many" => {
+                // amortisation run (C10): n pushes, the allocator / backend events of the whole run are in the event
+                let n = usz(a, "n");
+                let first = if C::E::SZ == 0 { 0 } else { reg::next_id() };
+                for _ in 0..n {
+                    let id = if C::E::SZ == 0 { 0 } else { reg::fresh_id() };
+                    self.v(x).downcast_mut::<C::E>().expect("driver: type").push(C::E::make(id, 0));
+                }
+                out.born.push(first);     // the run's identities are first, first+1, ...
+            }
             "recreate" => {
                 // drop the vector and build a new one with_capacity(n)
                 let n = bound_val(a["n"].as_i64().unwrap_or(0));
-                let old = unsafe { Box::from_raw(self.vs[x].ptr) };
+                let old = unsafe { vbox_take(self.vs[x].ptr) };
                 self.vs[x].ptr = std::ptr::null_mut();
                 drop(old);
                 let nv = C::with_capacity(n).expect("driver: with_capacity not offered by this backend");
-                let b = { let _h = HarnessScope::new(); Box::new(nv) };
-                self.vs[x].ptr = Box::into_raw(b);
+                self.vs[x].ptr = vbox_new(nv);
             }
             o => panic!("driver: unknown op {}", o),
         }
@@ -886,7 +914,7 @@ impl<C: Config> World<C> {
         for v in back { if catch_unwind(AssertUnwindSafe(move || drop(v))).is_err() { panics += 1; } }
         for i in 0..self.vs.len() {
             if !self.vs[i].ptr.is_null() {
-                let b = unsafe { Box::from_raw(self.vs[i].ptr) };
+                let b = unsafe { vbox_take(self.vs[i].ptr) };
                 self.vs[i].ptr = std::ptr::null_mut();
                 if catch_unwind(AssertUnwindSafe(move || drop(b))).is_err() { panics += 1; }
             }
@@ -897,6 +925,25 @@ impl<C: Config> World<C> {
         (cbs, r.is_err())
     }
 }
+
+/// vector objects live in 64-byte aligned cells, so that the position of in-object (stack) storage is reproducible;
+/// other placements are swept by the `place` action
+pub struct VBox<T>(pub *mut T);
+fn vcell_layout<T>() -> std::alloc::Layout {
+    std::alloc::Layout::from_size_align(std::mem::size_of::<T>().max(1), std::mem::align_of::<T>().max(64)).unwrap()
+}
+pub fn vbox_new<T>(v: T) -> *mut T {
+    let _h = HarnessScope::new();
+    unsafe { let p = std::alloc::alloc(vcell_layout::<T>()) as *mut T; assert!(!p.is_null()); p.write(v); p }
+}
+/// move the object out of its cell and free the cell
+pub unsafe fn vbox_take<T>(p: *mut T) -> T {
+    let v = p.read();
+    let _h = HarnessScope::new();
+    std::alloc::dealloc(p as *mut u8, vcell_layout::<T>());
+    v
+}
+impl<T> Drop for VBox<T> { fn drop(&mut self) { unsafe { drop(vbox_take(self.0)); } } }
 
 pub fn pair(d: (i64, i64)) -> (i64, i64) { d }
 fn hint3(sh: (usize, Option<usize>), len: usize) -> (i64, i64, i64) {
@@ -965,9 +1012,8 @@ where C::Tr: any_vec::traits::Cloneable {
         "clone_vec" => {
             let to = vidx(st(a, "to"));
             let nv: V<C> = w.v(x).clone();
-            let old = unsafe { Box::from_raw(w.vs[to].ptr) };
-            let b = { let _h = HarnessScope::new(); Box::new(nv) };
-            w.vs[to].ptr = Box::into_raw(b);
+            let old = unsafe { vbox_take(w.vs[to].ptr) };
+            w.vs[to].ptr = vbox_new(nv);
             drop(old);
         }
         "ce_probe" => {
@@ -1066,11 +1112,11 @@ fn lazy_consume<C: Config, L: AnyValue + Clone>(w: &mut World<C>, lz: &L, n: usi
 pub fn raw_ops_impl<C: Config>(w: &mut World<C>, a: &Value, out: &mut ActOut) -> bool
 where <C::M as MemBuilder>::Mem: any_vec::mem::MemRawParts, <<C::M as MemBuilder>::Mem as any_vec::mem::MemRawParts>::Handle: Clone {
     let x = vidx(st(a, "v"));
-    let v: Box<V<C>> = unsafe { Box::from_raw(w.vs[x].ptr) };
+    let v: V<C> = unsafe { vbox_take(w.vs[x].ptr) };
     w.vs[x].ptr = std::ptr::null_mut();
     let (len0, cap0) = (v.len(), v.capacity());
     let (lay0, ty0, drop0) = (v.element_layout(), v.element_typeid(), v.element_drop().is_some());
-    let parts = (*v).into_raw_parts();
+    let parts = v.into_raw_parts();
     let mut ok = parts.len == len0 && parts.capacity == cap0 && parts.element_layout == lay0 && parts.element_typeid == ty0
         && parts.element_drop.is_some() == drop0 && lay0 == core::alloc::Layout::new::<C::E>() && ty0 == TypeId::of::<C::E>()
         && drop0 == std::mem::needs_drop::<C::E>();
@@ -1085,7 +1131,6 @@ where <C::M as MemBuilder>::Mem: any_vec::mem::MemRawParts, <<C::M as MemBuilder
     } else { parts };
     let _ = ok;
     let nv: V<C> = unsafe { AnyVec::from_raw_parts(use_parts) };
-    let b = { let _h = HarnessScope::new(); Box::new(nv) };
-    w.vs[x].ptr = Box::into_raw(b);
+    w.vs[x].ptr = vbox_new(nv);
     true
 }
